@@ -150,8 +150,9 @@ def rule_node_order(chk, prog):
     eps = lits[0]
     cands = [Fraction(0), eps / 2, eps, eps * 2, Fraction(1)]
     for ta, tb in ((1, 2), (2, 1), (3, 3)):
-        a = Obj("Avoid::ANode", {"inf": None, "g": Fraction(0), "h": Fraction(0), "f": F1, "prevNode": None, "timeStamp": ta})
-        b = Obj("Avoid::ANode", {"inf": None, "g": Fraction(0), "h": Fraction(0), "f": F2, "prevNode": None, "timeStamp": tb})
+        from ..microai.interp import default_obj
+        a = default_obj(prog, "Avoid::ANode", {"inf": None, "g": Fraction(0), "h": Fraction(0), "f": F1, "prevNode": None, "timeStamp": ta})
+        b = default_obj(prog, "Avoid::ANode", {"inf": None, "g": Fraction(0), "h": Fraction(0), "f": F2, "prevNode": None, "timeStamp": tb})
 
         def run(o):
             it = Interp(prog, o, lattice=False)
@@ -215,7 +216,8 @@ def rule_cost(chk, prog):
             "log10": lambda it, n, env: Poly.var("LOG10"),
             "std::log10": lambda it, n, env: Poly.var("LOG10"),
         }
-    router = Obj("Avoid::Router", {"ClusteredRouting": False, "clusterRefs": None})
+    from ..microai.interp import default_obj
+    router = default_obj(prog, "Avoid::Router", {"ClusteredRouting": False, "clusterRefs": None})
     def vert(nm):
         return Obj("Avoid::VertInf", {"point": pt(nm), "_router": router, "id": None})
     line = Obj("Avoid::ConnRef", {})
